@@ -1,6 +1,23 @@
 ALL = ["C%02d" % i for i in range(1, 21)]
 
 CLAIMED = {
+    "C20": dict(
+        text="PARTIAL. Lean 4 theorems over a model of the custom modules' genesis export/import (every collections field of every "
+             "keeper classified exported / normalised / transient / derived / dropped): for every module and every state, a second "
+             "export after import equals the first (entry by entry for exported fields, on the exported projection for the normalised "
+             "ones — oracle exchange rates, epochs — whatever the import context stamps); the oracle's reward id sequence after import "
+             "is fresh (no pending reward overwritten) with the expression the source stores, counterexample for the expression as it "
+             "was (fix: f01fc86). T1: the field table (module, field, kind, mentioned by ExportGenesis, mentioned by InitGenesis) and "
+             "the RewardsID expression are regenerated from the source on every run and must match the classification (a new field, "
+             "or a field dropped from an export, breaks the obligation). T2: full-application round trip on real apps — generated "
+             "history over all custom modules, ExportGenesisForModules, InitChain of a fresh app, second export — comparing sections, "
+             "balances, sequences, code, storage, ERC20 queries, TWAP, and module behaviour after import.",
+        note="NOT proved: that the Go Init/ExportGenesis code implements the model per field (tied by the differential run) and the "
+             "reachability side of 'every reachable state'. Known finding C20-oracle-twap-history (PriceSnapshots not exported). "
+             "Trusted: Lean kernel; extractor; harness; SDK module manager and the non-Nibiru modules' genesis code.",
+        technique="Lean 4 proof (list lemmas over classified store fields; decide on the regenerated table) + regenerated facts "
+                  "(translator) + full-application export/InitChain/export differential run with property oracle",
+        ref="§7 C20"),
     "C03": dict(
         text="PARTIAL. A reference semantics of the vm.StateDB interface in Lean (GethSpec: copy-on-snapshot transaction state over a "
              "persisted base) is validated on every run against upstream go-ethereum's real core/state.StateDB and compared with "
